@@ -43,6 +43,7 @@ Fixpoint alg_eqb (a b : alg) {struct a} : bool :=
   | Project q vs, Project q' vs' => alg_eqb q q' && leqb N.eqb vs vs'
   | Graph g q, Graph g' q' => tv_eqb g g' && alg_eqb q q'
   | Distinct q, Distinct q' => alg_eqb q q'
+  | Slice n q, Slice n' q' => N.eqb n n' && alg_eqb q q'
   | _, _ => false
   end
 with expr_eqb (a b : expr) {struct a} : bool :=
